@@ -6,27 +6,36 @@
    Mode = "chars": control -- the word splitter counting characters; SplitOK is NOT an invariant here: every
                    (limit, text) on which the relation is violated is printed (Report) and the harness replays
                    those inputs on the real client.
+   Mode = "fifo" : up to MaxMsgs messages, split and queued, a timer writes the oldest line per tick, sends and ticks
+                   interleaved in every way: QueueOK / QueueSafe invariants.  Mode = "lifo": control, newest first --
+                   violations of QueueOK are printed (the relation notices reordering).
    Mode = "quote": every text up to MaxLen over the quoting alphabets: Dequote(Quote(t)) = t, quoted text clean. *)
 EXTENDS IrcSplit, TLC, Json
-CONSTANTS MaxLen, MaxAvail, Mode, Kinds
+CONSTANTS MaxLen, MaxAvail, Mode, Kinds, MaxMsgs
 
 SplitAlpha == {97, 233, 8364, 128512, SPC, TAB, LF, CR}
 LowAlpha   == {MQ, NUL, LF, CR, 48, 110, 114, 120}
 CtcpAlpha  == {XQ, XD, 97, 120}
 User == <<117>>
 
-Init == IF Mode = "quote"
+QueueAlpha == {97, 233, SPC}
+MkMsg(n, a) == [kind |-> "msg", user |-> <<117, 48 + n>>, limit |-> 14 + a]     \* "PRIVMSG uN :" + CRLF = 14 octets
+Init == IF Mode \in {"fifo", "lifo"}
+        THEN InitWith([mode |-> Mode, kind |-> "msg", user |-> <<>>, limit |-> 0])
+        ELSE IF Mode = "quote"
         THEN \E m \in {"low", "ctcp"} : InitWith([mode |-> m, kind |-> "msg", user |-> <<>>, limit |-> 0])
         ELSE \E k \in Kinds, a \in 0..MaxAvail :
                  InitWith([mode |-> Mode, kind |-> k, user |-> User,
                            limit |-> Len(CmdText(k)) + Len(User) + 5 + a])
-Alpha == IF cfg.mode = "low" THEN LowAlpha ELSE IF cfg.mode = "ctcp" THEN CtcpAlpha ELSE SplitAlpha
+Alpha == IF cfg.mode \in {"fifo", "lifo"} THEN QueueAlpha ELSE IF cfg.mode = "low" THEN LowAlpha ELSE IF cfg.mode = "ctcp" THEN CtcpAlpha ELSE SplitAlpha
 ExtendAny == /\ phase = "build" /\ Len(text) < MaxLen
              /\ \E sym \in Alpha : text' = Append(text, sym)
-             /\ UNCHANGED <<cfg, phase, stream, lines, err, q, back>>
-Next == ExtendAny \/ SendPack \/ SendWords \/ SendRefuse \/ SendCharCount \/ DoQuote
+             /\ UNCHANGED <<cfg, phase, stream, lines, err, q, back, msgs, queue>>
+EnqueueAny == \E a \in 1..MaxAvail : Len(msgs) < MaxMsgs /\ text # <<>> /\ Enqueue(MkMsg(Len(msgs) + 1, a))
+Next == EnqueueAny \/ TickFifo \/ TickLifo \/ ExtendAny \/ SendPack \/ SendWords \/ SendRefuse \/ SendCharCount \/ DoQuote
 Spec == Init /\ [][Next]_vars
 
 Report == phase # "sent" \/ Accepts(cfg, text, lines, err)
           \/ PrintT(<<"CEX", ToJson([kind |-> cfg.kind, user |-> cfg.user, limit |-> cfg.limit, text |-> text])>>)
+ReportQ == QueueOK \/ PrintT(<<"CEXQ", ToJson([msgs |-> msgs, stream |-> stream])>>)
 =============================================================================
